@@ -329,28 +329,76 @@ func (h *hist) doGet(key string, from, to int64, avoid, fail bool, n, nested, de
 			vs = append(vs, vic{keyZ(e.Key), e.Lru, e.RowsSize + len(e.Ranges), e.Key})
 		}
 	}
-	// The order of evictions inside one get is not observable. Entries with equal lru can go in any
-	// order (strict `<` over Go map order): lighter first keeps the loop condition true longest. With
-	// more than 100 entries evictLocked samples the map and any present key can go: the victims with
-	// the largest lru are taken as the sampled ones.
-	sort.Slice(vs, func(i, j int) bool {
-		if vs[i].lru != vs[j].lru {
-			return vs[i].lru < vs[j].lru
+	// The ORDER of the evictions inside one get is not observable (only the set of victims is, read back
+	// above). The model validates a sequence: while more than 100 entries are present evictLocked samples
+	// the map (any present key may go), otherwise the victim has a minimal lru (ties in any order), the
+	// loop condition holds before every eviction and fails after the last. Whether such a sequence exists
+	// depends only on which victim goes last (size+len decreases monotonically, so the condition before
+	// the last eviction is the binding one): given the last victim x, the best arrangement of the others
+	// is "the k = len-100 largest lru first (sampled), the rest by ascending lru". All choices of x are
+	// tried against a simulation of exactly these rules; the real run is one of them, so on conforming
+	// code an accepted order is always found. If none is, the default order is printed and the model
+	// rejects the step (a real disagreement).
+	less := func(a, b vic) bool {
+		if a.lru != b.lru {
+			return a.lru < b.lru
 		}
-		if vs[i].w != vs[j].w {
-			return vs[i].w < vs[j].w
+		if a.w != b.w {
+			return a.w < b.w
 		}
-		return vs[i].k < vs[j].k
-	})
-	if k := len(f.before.Entries) - 100; k > 0 {
-		if k > len(vs) {
-			k = len(vs)
+		return a.k < b.k
+	}
+	sort.Slice(vs, func(i, j int) bool { return less(vs[i], vs[j]) })
+	simulate := func(order []vic) bool {
+		size, L := f.before.Size, len(f.before.Entries)
+		gone := map[string]bool{}
+		for _, v := range order {
+			if size+L < h.max {
+				return false
+			}
+			if L <= 100 {
+				for _, e := range f.before.Entries {
+					if !gone[e.Key] && e.Lru < v.lru {
+						return false
+					}
+				}
+			}
+			gone[v.key] = true
+			size -= v.w
+			L--
 		}
-		pre := append([]vic{}, vs[len(vs)-k:]...)
-		// any present key is acceptable while sampling; lighter first keeps the loop condition true longest
-		sort.SliceStable(pre, func(i, j int) bool { return pre[i].w < pre[j].w })
-		vs = append(pre, vs[:len(vs)-k]...)
-		h.flags["evict-sampled"]++
+		return size+L < h.max
+	}
+	arrange := func(j int) []vic {
+		rest := make([]vic, 0, len(vs))
+		rest = append(rest, vs[:j]...)
+		rest = append(rest, vs[j+1:]...)
+		k := len(f.before.Entries) - 100
+		if k < 0 {
+			k = 0
+		}
+		if k > len(rest) {
+			k = len(rest)
+		}
+		order := append([]vic{}, rest[len(rest)-k:]...)
+		order = append(order, rest[:len(rest)-k]...)
+		return append(order, vs[j])
+	}
+	if len(vs) > 0 {
+		if len(f.before.Entries) > 100 {
+			h.flags["evict-sampled"]++
+		}
+		chosen := arrange(len(vs) - 1)
+		if !simulate(chosen) {
+			for j := len(vs) - 2; j >= 0; j-- {
+				if o := arrange(j); simulate(o) {
+					chosen = o
+					h.flags["evict-order-searched"]++
+					break
+				}
+			}
+		}
+		vs = chosen
 	}
 	vz := make([]int64, len(vs))
 	for i, v := range vs {
